@@ -797,7 +797,10 @@ class StructuredFormula(Structured[SimpleFormula], Formula):
         """
         return cast(
             SimpleFormula,
-            self._map(lambda formula: formula.differentiate(*wrt, use_sympy=use_sympy)),
+            self._map(
+                lambda formula: formula.differentiate(*wrt, use_sympy=use_sympy),
+                as_type=StructuredFormula,
+            ),
         )
 
     # Ensure pickling never includes context
